@@ -14,6 +14,8 @@ use crate::{Error, Result, Sample, image::TransformedGrid};
 mod palette;
 mod rct;
 mod squeeze;
+#[cfg(jxl_oxide_verif)]
+pub use squeeze::verif as verif_squeeze;
 
 #[derive(Debug, Clone)]
 pub enum TransformInfo {
